@@ -105,6 +105,7 @@ func zzItoa(i int) string {
 var zzProg0 = map[string]string{
 	"main.thrift": `include "inc/common.thrift"
 include "shared.thrift"
+include "ver.v1.thrift"
 namespace go c15.main
 namespace java jm
 cpp_include "x.h"
@@ -117,6 +118,8 @@ struct S {
   5: set<binary> bins
   6: E e = E.B
   7: list<U> us
+  8: ver.v1.V vv
+  9: map<ver.v1.VE, ver.v1.VT> vm
 } (sk = "sv")
 union U { 1: i64 x; 2: string y }
 exception X { 1: string msg (m = "") }
@@ -137,6 +140,13 @@ service Svc extends Base {
   oneway void fire(1: i64 n)
   list<E> es()
 } (sva = "x")
+service Svc3 extends ver.v1.VS { }
+`,
+	"ver.v1.thrift": `namespace go c15.ver
+struct V { 1: i32 n }
+enum VE { ONE = 1 }
+typedef V VT
+service VS { void vping() }
 `,
 	"inc/common.thrift": `include "../shared.thrift"
 namespace go c15.common
@@ -320,6 +330,7 @@ func zzDumpFD(fd *FileDescriptor) string {
 const zzWant0 = `file main.thrift
 include common=inc/common.thrift
 include shared=shared.thrift
+include ver.v1=ver.v1.thrift
 namespace go=c15.main
 namespace java=jm
 struct S@main.thrift(sk=[sv])
@@ -330,6 +341,8 @@ struct S@main.thrift(sk=[sv])
   5:Default:set<binary>:bins:-::main.thrift
   6:Default:E:e:id:E.B::main.thrift
   7:Default:list<U>:us:-::main.thrift
+  8:Default:ver.v1.V:vv:-::main.thrift
+  9:Default:map<ver.v1.VE,ver.v1.VT>:vm:-::main.thrift
 union U@main.thrift()
   1:Optional:i64:x:-::main.thrift
   2:Optional:string:y:-::main.thrift
@@ -357,6 +370,7 @@ service Svc@main.thrift extends 'Base' (sva=[x])
   void fire oneway=1 ()
     arg 1:Default:i64:n:-::main.thrift
   list<E> es oneway=0 ()
+service Svc3@main.thrift extends 'ver.v1.VS' ()
 `
 
 // H_C15_fidelity: the descriptor of every file says what the IDL says.
@@ -525,7 +539,7 @@ func H_C15_lookup(what int) {
 	defer ReleaseGlobalDescriptors(gd)
 	switch what {
 	case 0: // files
-		for _, p := range []string{"main.thrift", "inc/common.thrift", "shared.thrift"} {
+		for _, p := range []string{"main.thrift", "inc/common.thrift", "shared.thrift", "ver.v1.thrift"} {
 			f := gd.LookupFD(p)
 			zzrt.Assert(f != nil && f.Filepath == p, "LookupFD "+p)
 		}
@@ -588,12 +602,26 @@ func H_C15_lookup(what int) {
 		zzrt.Assert(err == nil && xd.Name == "CX" && xd.Filepath == "inc/common.thrift", "common.CX resolves into inc/common.thrift")
 		ts := fd.GetTypedefDescriptor("TM").Type.ValueType
 		zzrt.Assert(ts.IsTypedef() && !ts.IsStruct(), "kind of TS")
+		// an included file whose base name contains a dot: the alias is everything before the last dot
+		vv := s.GetFieldByName("vv").Type
+		d, err = vv.GetStructDescriptor()
+		zzrt.Assert(err == nil && d != nil && d.Name == "V" && d.Filepath == "ver.v1.thrift" && vv.IsStruct(), "ver.v1.V resolves into ver.v1.thrift")
+		vm := s.GetFieldByName("vm").Type
+		ed, err = vm.KeyType.GetEnumDescriptor()
+		zzrt.Assert(err == nil && ed != nil && ed.Name == "VE" && vm.KeyType.IsEnum(), "ver.v1.VE resolves into ver.v1.thrift")
+		td, err = vm.ValueType.GetTypedefDescriptor()
+		zzrt.Assert(err == nil && td != nil && td.Alias == "VT" && vm.ValueType.IsTypedef(), "ver.v1.VT resolves into ver.v1.thrift")
+		zzrt.Assert(fd.GetStructDescriptor("ver.v1.V") == d && gd.LookupStruct("V", "ver.v1.thrift") == d, "lookup by the dotted alias")
+		zzrt.Assert(fd.GetServiceDescriptor("ver.v1.VS") != nil && fd.GetEnumDescriptor("ver.v1.VE") == ed && fd.GetTypedefDescriptor("ver.v1.VT") == td, "other kinds by the dotted alias")
 	case 3: // services
 		svc := fd.GetServiceDescriptor("Svc")
 		zzrt.Assert(svc != nil && svc.GetParent() != nil && svc.GetParent().Name == "Base", "parent in the same file")
 		base := svc.GetParent().GetParent()
 		zzrt.Assert(base != nil && base.Name == "SharedSvc" && base.Filepath == "shared.thrift", "parent in an included file")
 		zzrt.Assert(base.GetParent() == nil, "no parent")
+		s3 := fd.GetServiceDescriptor("Svc3")
+		zzrt.Assert(s3.GetParent() != nil && s3.GetParent().Name == "VS" && s3.GetParent().Filepath == "ver.v1.thrift", "parent in a file whose base name contains a dot")
+		zzrt.Assert(s3.GetMethodByNameFromAll("vping") != nil, "inherited method through the dotted alias")
 		all := svc.GetAllMethods()
 		names := ""
 		for _, m := range all {
@@ -611,12 +639,12 @@ func H_C15_lookup(what int) {
 		s := fd.Structs[0]
 		id := zzrt.Int32("id")
 		f := s.GetFieldById(id)
-		want := id == 1 || id == 2 || id == 3 || id == -1 || id == 5 || id == 6 || id == 7
+		want := id == 1 || id == 2 || id == 3 || id == -1 || (id >= 5 && id <= 9)
 		zzrt.Assert((f != nil) == want, "GetFieldById finds exactly the declared ids")
 		zzrt.Assert(f == nil || f.ID == id, "GetFieldById returns the field with that id")
 		n := zzIdent("fname", 1+zzrt.Choose("len", 3))
 		g := s.GetFieldByName(n)
-		wantN := n == "a" || n == "m" || n == "sh" || n == "ct" || n == "bins" || n == "e" || n == "us"
+		wantN := n == "a" || n == "m" || n == "sh" || n == "ct" || n == "bins" || n == "e" || n == "us" || n == "vv" || n == "vm"
 		zzrt.Assert((g != nil) == wantN && (g == nil || g.Name == n), "GetFieldByName")
 		zzrt.Assert(s.GetFieldById(1).IsRequired() && s.GetFieldById(2).IsOptional() && s.GetFieldById(3).IsDefault(), "requiredness predicates")
 	}
